@@ -283,7 +283,7 @@ const (
 	cntMaxArgs       = 63   // the scanner drops operators with 64 or more operands
 	cntMaxNest       = 256  // maxContentNestDepth
 	cntMaxImageNest  = 10   // maxValueDepth
-	cntMaxImageBytes = 4094 // longest data found by the EI search (maxInlineImageBytes - 2)
+	cntMaxImageBytes = 4096 // maxInlineImageBytes: the limit of PDF 2.0 §8.9.7, with or without a Length key
 )
 
 func cntDepth(o pdf.Object) int {
@@ -448,8 +448,12 @@ func cntClassify(ops []content.Operator) (inDomain bool, hazards []string) {
 				inDomain = false
 			}
 			for k, v := range d {
-				if cntHasRefOrOp(v) || cntLongName(v) || len(k) > 4096 || cntDepth(v) > cntMaxImageNest {
+				if cntHasRefOrOp(v) || cntLongName(v) || len(k) > 4096 {
 					inDomain = false
+				}
+				if cntDepth(v) > cntMaxImageNest {
+					// beyond the reader's defensive limit maxValueDepth (known)
+					hz["inline-image-value-nesting-over-cap"] = true
 				}
 				if isNilObj(v) {
 					hz["inline-image-nil-entry"] = true
@@ -486,20 +490,33 @@ func cntClassify(ops []content.Operator) (inDomain bool, hazards []string) {
 				if len(data) > cntMaxImageBytes {
 					inDomain = false
 				}
+				if len(data) > cntMaxImageBytes-2 {
+					// D-C15-2: the EI search stopped two bytes short of the limit
+					hz["inline-image-cap-without-length"] = true
+				}
 				if cntFalseEI(data) {
 					hz["inline-image-EI-in-data"] = true
 				}
 			}
 			if cntImageFilterASCII(d) && len(data) > 0 && (cntIsSpace(data[0]) || data[0] == '%') {
-				hz["inline-image-ascii-leading-space"] = true
+				if search {
+					hz["inline-image-ascii-leading-space"] = true
+				} else {
+					// D-C15-9: with a Length key the data is delimited exactly
+					hz["inline-image-ascii-space-with-length"] = true
+				}
 			}
 		default:
 			if !cntAdmissibleName(op.Name) || len(op.Args) > cntMaxArgs {
 				inDomain = false
 			}
 			for _, a := range op.Args {
-				if cntHasRefOrOp(a) || cntLongName(a) || cntDepth(a) > cntMaxNest {
+				if cntHasRefOrOp(a) || cntLongName(a) {
 					inDomain = false
+				}
+				if cntDepth(a) > cntMaxNest {
+					// beyond the reader's defensive limit maxContentNestDepth (known)
+					hz["operand-nesting-over-cap"] = true
 				}
 			}
 		}
@@ -507,12 +524,115 @@ func cntClassify(ops []content.Operator) (inDomain bool, hazards []string) {
 	// the two classes which are known findings come first: a failing sequence is
 	// attributed to them before it is attributed to a class that was repaired
 	// (D16-D18: keys, nil entries, empty arrays), whose failure is a regression
-	for _, k := range []string{"inline-image-EI-in-data", "inline-image-ascii-leading-space", "inline-image-key-unescaped", "inline-image-nil-entry", "inline-image-empty-array"} {
+	for _, k := range cntHazardOrder {
 		if hz[k] {
 			hazards = append(hazards, k)
 		}
 	}
 	return
+}
+
+// cntHazardOrder: the classes which are known findings come first.
+var cntHazardOrder = []string{
+	"inline-image-EI-in-data", "inline-image-ascii-leading-space", "operand-nesting-over-cap", "inline-image-value-nesting-over-cap",
+	"inline-image-cap-without-length", "inline-image-ascii-space-with-length",
+	"inline-image-key-unescaped", "inline-image-nil-entry", "inline-image-empty-array",
+}
+
+// cntAttribute names the hazard class of the first operator of a failing
+// sequence which fails on its own (so that a known class elsewhere in the
+// sequence does not hide a defect), "" if no single operator fails.
+func cntAttribute(ops []content.Operator, fails func([]content.Operator) bool) string {
+	for _, op := range ops {
+		one := []content.Operator{op}
+		if inDomain, hazards := cntClassify(one); inDomain && fails(one) {
+			if len(hazards) > 0 {
+				return hazards[0]
+			}
+			return "roundtrip"
+		}
+	}
+	return ""
+}
+
+// cntNonNative replaces numbers among the entries of inline image
+// dictionaries (top level and nested) by pdf.Number values whose AsPDF image
+// is the replaced value; changed reports whether anything was replaced.
+func cntNonNative(ops []content.Operator) (out []content.Operator, changed bool) {
+	var conv func(o pdf.Object) pdf.Object
+	conv = func(o pdf.Object) pdf.Object {
+		switch x := o.(type) {
+		case pdf.Integer:
+			if x > -(1<<53) && x < 1<<53 {
+				changed = true
+				return pdf.Number(x)
+			}
+		case pdf.Real:
+			f := float64(x)
+			if f == f && f-f == 0 && f != float64(int64(f)) && f > -1e15 && f < 1e15 {
+				changed = true
+				return pdf.Number(f)
+			}
+		case pdf.Array:
+			if x == nil {
+				return x
+			}
+			a := make(pdf.Array, len(x))
+			for i, e := range x {
+				a[i] = conv(e)
+			}
+			return a
+		case pdf.Dict:
+			d := pdf.Dict{}
+			for k, v := range x {
+				d[k] = conv(v)
+			}
+			return d
+		}
+		return o
+	}
+	out = make([]content.Operator, len(ops))
+	for i, op := range ops {
+		out[i] = op
+		if op.Name == content.OpInlineImage && len(op.Args) == 2 {
+			if d, ok := op.Args[0].(pdf.Dict); ok {
+				out[i].Args = []pdf.Object{conv(d), op.Args[1]}
+			}
+		}
+	}
+	return out, changed
+}
+
+// cntEmptyStringNil reports a string which was written as an empty, non-nil
+// pdf.String and re-read as pdf.String(nil) (which pdf.Equal, Operator.Equal
+// and StreamsEqual tell apart).
+func cntEmptyStringNil(want, got pdf.Object) bool {
+	switch w := want.(type) {
+	case pdf.String:
+		g, ok := got.(pdf.String)
+		return ok && w != nil && len(w) == 0 && g == nil
+	case pdf.Array:
+		g, ok := got.(pdf.Array)
+		if !ok || len(g) != len(w) {
+			return false
+		}
+		for i := range w {
+			if cntEmptyStringNil(w[i], g[i]) {
+				return true
+			}
+		}
+	case pdf.Dict:
+		g, ok := got.(pdf.Dict)
+		if !ok {
+			return false
+		}
+		for k, v := range w {
+			if gv, ok := g[k]; ok && cntEmptyStringNil(v, gv) {
+				return true
+			}
+		}
+	}
+	return false
 }
 
 // ---- generators ----
@@ -710,7 +830,7 @@ func cntGenImage(r *Rand, hazard bool) content.Operator {
 			}
 		}
 	case 3:
-		data = bytes.Repeat([]byte{byte(r.U64())}, Pick(r, []int{511, 512, 513, 1000, 4093, 4094}))
+		data = bytes.Repeat([]byte{byte(r.U64())}, Pick(r, []int{511, 512, 513, 1000, 4093, 4094, 4095, 4096}))
 	default:
 		n := r.Intn(40)
 		data = make([]byte, n)
@@ -772,7 +892,19 @@ func cntGenImage(r *Rand, hazard bool) content.Operator {
 			d["D"] = pdf.Array{}
 		case 4:
 			d["F"] = pdf.Name("A85")
-			data = append([]byte(Pick(r, []string{" ", "\n", "%c\n", "\x00"})), data...)
+			data = append([]byte(Pick(r, []string{" ", "\n", "%c\n", "\x00", "\n  ", " \t", "\r\n"})), data...)
+			if len(data) > 4096 {
+				data = data[:4096]
+			}
+			if r.Bool() {
+				// D-C15-9: the same with a Length key
+				delete(d, "Length")
+				d["L"] = pdf.Integer(len(data))
+			} else if _, ok := d["L"]; ok {
+				d["L"] = pdf.Integer(len(data))
+			} else if _, ok := d["Length"]; ok {
+				d["Length"] = pdf.Integer(len(data))
+			}
 		}
 	}
 	return content.Operator{Name: content.OpInlineImage, Args: []pdf.Object{d, pdf.String(data)}}
